@@ -101,6 +101,14 @@ func HarnessC20Reload() {
 	oldText := olds[oi]
 	newText := news[oi][nondetRange("new-version", 0, 1)]
 	gauge := oi == 2
+	// a second program that is never reloaded: it must see every line once
+	// (loaded first: the engine's maps iterate in insertion order, so the
+	// dispatcher offers each line to it before the reloaded program)
+	if r.CompileAndRun("q.mtail", strings.NewReader(lvOth)) != nil || r.handles["q.mtail"] == nil {
+		vAssert(false, "L.setup")
+		return
+	}
+	qM := r.handles["q.mtail"].vm.Metrics[0]
 	if r.CompileAndRun(prog, strings.NewReader(oldText)) != nil {
 		vAssert(false, "L.setup")
 		return
@@ -122,8 +130,15 @@ func HarnessC20Reload() {
 		send()
 	}
 
+	// a line may be in flight when the reload begins: handed to the
+	// dispatcher, which may still be waiting for a held-back VM to take it
+	inflight := nondetBool("line-in-flight-at-reload")
+	if inflight {
+		nsent++
+		lines <- &logline.LogLine{Filename: "log", Line: strconv.FormatInt(nsent, 10)}
+	}
 	// the reload, with a line arriving at a lock-release point or after it
-	c20.armed, c20.sent, c20.point, c20.send = true, false, 0, send
+	c20.armed, c20.sent, c20.point, c20.send = !inflight, inflight, 0, send
 	err = r.CompileAndRun(prog, strings.NewReader(newText))
 	c20.armed = false
 	c20Settle()
@@ -134,7 +149,7 @@ func HarnessC20Reload() {
 		return
 	}
 	newM := newH.vm.Metrics[0]
-	during := c20.sent
+	during := c20.sent && !inflight
 	if !c20.sent {
 		c20.sent = true
 		send()
@@ -157,6 +172,7 @@ func HarnessC20Reload() {
 		vAssert(c20Val(oldM)+c20Val(newM) == nsent, "C20.line-processed-by-exactly-one-version-old-before-new")
 	}
 	vAssert(c20Val(newM) >= 1 || kept, "C20.line-after-the-reload-goes-to-the-new-version")
+	vAssert(c20Val(qM) == nsent, "C20.a-program-that-is-not-reloaded-sees-every-line-once")
 	vAssert(lvClosed(oldH), "C14.replaced-version-is-stopped")
 	vObserve("during", during)
 	vObserve("points", c20.point)
